@@ -6,14 +6,15 @@
 // from the node (overlay accessor VerifAPIs) and the server's own reflection rule; arguments are
 // synthesised from small per-type lattices; every call goes through a real client on every transport.
 // Signing is observed, never inferred from method names:
-//   (w) a recording wallet interposed between the account manager and the real keystore wallet,
-//   (p) new transaction-pool entries whose sender is a keystore address,
-//   (r) signatures / signed transactions in RPC results that recover to a keystore address.
+//
+//	(w) a recording wallet interposed between the account manager and the real keystore wallet,
+//	(p) new transaction-pool entries whose sender is a keystore address,
+//	(r) signatures / signed transactions in RPC results that recover to a keystore address.
+//
 // DESIGN.md section 4/C18.
 package c18
 
 import (
-	"bytes"
 	"context"
 	"encoding/hex"
 	"encoding/json"
@@ -343,9 +344,10 @@ type world struct {
 	clients map[string]*rpcclient.Client
 	signer  types.Signer
 
-	known   map[string]bool // signature tokens observed so far (wallet, pool, results)
-	ksAddrs map[common.Address]bool
-	sealSeen map[string]bool
+	known     map[string]bool // signature tokens of every transaction that has ever been in the pool
+	ksAddrs   map[common.Address]bool
+	sealSeen  map[string]bool
+	gasPrice0 *big.Int
 }
 
 func genesisFor(chain string) *core.Genesis {
@@ -482,7 +484,16 @@ func (w *world) dial(ctx context.Context) error {
 
 // restore puts the keystore back into the stated initial condition: one locked, one unlocked.
 func (w *world) restore() {
-	if w.cfg.Chain != "clique" && w.aq.IsMining() {
+	// miner_setAquabase / miner_setGasPrice reconfigure the node for every later call: undo them
+	if eb, _ := w.aq.Aquabase(); eb != addrUnlocked {
+		w.aq.SetAquabase(addrUnlocked)
+	}
+	if w.gasPrice0 == nil {
+		w.gasPrice0 = w.aq.TxPool().GasPrice()
+	} else if w.aq.TxPool().GasPrice().Cmp(w.gasPrice0) != 0 {
+		w.aq.TxPool().SetGasPrice(new(big.Int).Set(w.gasPrice0))
+	}
+	if w.aq.IsMining() {
 		// aqua_getWork / testing_getBlockTemplate / miner_start leave the CPU miner running
 		w.aq.StopMining()
 	}
@@ -949,7 +960,7 @@ func (w *world) scanResult(raw json.RawMessage, args []string, ksAddrs map[commo
 }
 
 // observe evaluates one call: it performs it and returns every signing effect attributable to it.
-// before is the set of signature tokens known before the (first) evaluation of this case.
+// before is the set of ever-pooled transaction signatures before the (first) evaluation of this case.
 func (w *world) observe(cs callSpec, before map[string]bool) (callResult, []finding, []sigEvent) {
 	w.restore()
 	if w.ksAddrs == nil {
@@ -990,16 +1001,13 @@ func (w *world) observe(cs callSpec, before map[string]bool) (callResult, []find
 	return res, fs, evs
 }
 
+// learn remembers which signed transactions have ever been in the pool: those are node state that
+// read-only methods (txpool_content, aqua_getTransactionByHash, ...) legitimately echo. A signed
+// transaction that was only ever returned to a caller is not stored by the node, so meeting it (or,
+// signatures being deterministic, an identical one) in a later result means the node signed again.
 func (w *world) learn(fs []finding, evs []sigEvent) {
-	for _, f := range fs {
-		if f.Token != "" {
-			w.known[f.Token] = true
-		}
-	}
-	for _, e := range evs {
-		if e.Token != "" {
-			w.known[e.Token] = true
-		}
+	for _, tx := range w.poolTxs() {
+		w.known[txToken(tx)] = true
 	}
 }
 
@@ -1015,14 +1023,14 @@ func copySet(m map[string]bool) map[string]bool {
 
 type workerOut struct {
 	ev.WorkerResult
-	Matrix    map[string]int      `json:"matrix"`    // transport -> number of calls with a signing effect
-	Attempts  map[string]int      `json:"attempts"`  // transport -> failed signing attempts that reached a wallet
-	Signers   map[string][]string `json:"signers"`   // transport -> methods that produced a signature
-	Universe  []string            `json:"universe"`  // ns_name (subscriptions as ns_subscribe:name)
-	Reduced   []string            `json:"reduced"`   // methods whose tuple enumeration was trimmed
-	Skipped   []string            `json:"skipped"`   // disruptive methods not called
-	Late      []string            `json:"late"`      // disruptive methods called last
-	Absent    map[string][]string `json:"absent"`    // transport -> universe methods the server does not serve
+	Matrix    map[string]int      `json:"matrix"`   // transport -> number of calls with a signing effect
+	Attempts  map[string]int      `json:"attempts"` // transport -> failed signing attempts that reached a wallet
+	Signers   map[string][]string `json:"signers"`  // transport -> methods that produced a signature
+	Universe  []string            `json:"universe"` // ns_name (subscriptions as ns_subscribe:name)
+	Reduced   []string            `json:"reduced"`  // methods whose tuple enumeration was trimmed
+	Skipped   []string            `json:"skipped"`  // disruptive methods not called
+	Late      []string            `json:"late"`     // disruptive methods called last
+	Absent    map[string][]string `json:"absent"`   // transport -> universe methods the server does not serve
 	Timeouts  []string            `json:"timeouts"`
 	Sealer    []string            `json:"sealer"` // clique: methods that started the block sealer / produced block signatures
 	NoSignAll bool                `json:"nosign_blocked_all"`
@@ -1488,12 +1496,15 @@ func spawn(cfg config, idx int, deadline time.Time, skip []string, replay string
 	b, rerr := os.ReadFile(resPath)
 	os.Remove(resPath)
 	if rerr != nil {
+		if i := strings.Index(string(ob), "HARNESS-ERROR:"); i >= 0 {
+			ev.Broken("worker %s: %s", cfg.Name, truncate(string(ob)[i+len("HARNESS-ERROR:"):], 1500))
+		}
 		last := ""
 		if wb, err := os.ReadFile(filepath.Join(dir, "wal.log")); err == nil {
 			ls := strings.Split(strings.TrimSpace(string(wb)), "\n")
 			last = ls[len(ls)-1]
 		}
-		return nil, last + "\x00" + tail(string(ob), 3000)
+		return nil, last + "\x00" + crashHead(string(ob))
 	}
 	var wo workerOut
 	if json.Unmarshal(b, &wo) != nil {
@@ -1507,6 +1518,31 @@ func spawn(cfg config, idx int, deadline time.Time, skip []string, replay string
 		}
 	}
 	return &wo, ""
+}
+
+// crashHead extracts the panic message and the first frames of a dead worker's output.
+func crashHead(out string) string {
+	ls := strings.Split(out, "\n")
+	for i, l := range ls {
+		if strings.HasPrefix(l, "panic:") || strings.HasPrefix(l, "fatal error:") {
+			var keep []string
+			for _, x := range ls[i:] {
+				x = strings.TrimSpace(x)
+				if x == "" || strings.HasPrefix(x, "goroutine ") || strings.HasPrefix(x, "/") || strings.HasPrefix(x, "reflect.") {
+					continue
+				}
+				if j := strings.LastIndex(x, "("); j > 0 && !strings.HasPrefix(x, "panic") {
+					x = x[:j]
+				}
+				keep = append(keep, x)
+				if len(keep) == 6 {
+					break
+				}
+			}
+			return strings.Join(keep, " <- ")
+		}
+	}
+	return tail(out, 1500)
 }
 
 func tail(s string, n int) string {
@@ -1665,5 +1701,3 @@ func TestCheck(t *testing.T) {
 	}
 	run.Finish()
 }
-
-var _ = bytes.Equal
